@@ -189,8 +189,10 @@ D_Nf == {F(n) : n \in {-2, -1, 0, 1, 2, 3, 5}}
 D_FmtI == {S(<<37>> \o f) : f \in {<<100>>, <<53,100>>, <<45,53,100>>, <<48,53,100>>, <<43,100>>, <<43,48,54,100>>, <<45,48,53,100>>,
                                   <<120>>, <<88>>, <<48,52,120>>, <<43,120>>, <<111>>, <<98>>, <<48,56,98>>, <<54,111>>, <<99>>, <<51,99>>, <<113>>,
                                   <<118>>, <<52,118>>, <<45,52,118>>, <<115>>, <<116>>, <<49,48,100>>}}
+          \cup {S(f) : f \in {<<37,37,37,100>>, <<37,100,37,37>>, <<120,37,53,100,121>>, <<37,37,84,37,100>>, <<37,100,32,37,37,84>>, <<110,61,37,43,100,37,37>>}}
 D_FInt == {I(n) : n \in {0, 5, -5, 42, -42, 255, -255, 65, 97, 233, 100000, -100000}}
 D_FmtS == {S(<<37>> \o f) : f \in {<<115>>, <<53,115>>, <<45,53,115>>, <<113>>, <<43,113>>, <<56,113>>, <<118>>, <<51,118>>, <<120>>, <<100>>, <<116>>, <<49,115>>}}
+          \cup {S(f) : f \in {<<37,37,37,115>>, <<37,113,37,37>>, <<91,37,52,115,93>>, <<37,37,118,37,115>>}}
 D_FStr == {S(w) : w \in Words({Ch(97), Ch(34), Ch(92), Ch(10), Ch(32), EAcute}, 3)}
 D_FmtB == {S(<<37>> \o f) : f \in {<<116>>, <<54,116>>, <<45,54,116>>, <<118>>, <<100>>, <<115>>, <<113>>}}
 D_JStr == {S(w) : w \in Words({Ch(97), Ch(34), Ch(92), Ch(10), Ch(9), Ch(8), Ch(1), Ch(60), Ch(38), Ch(127), Ch(255), EAcute, CJK}, 3)}
@@ -353,9 +355,9 @@ Eval(fn, a) ==
     [] fn = "filepath.Ext"          -> Ok(<<S(Ext(s1))>>)
     [] fn = "filepath.Clean"        -> Ok(<<S(Clean(s1))>>)
     [] fn = "filepath.Join"         -> Ok(<<S(PathJoin(s1))>>)
-    [] fn = "fmt.Sprintf[i]"        -> Ok(<<S(SprintfInt(s1, s2))>>)
-    [] fn = "fmt.Sprintf[s]"        -> Ok(<<S(SprintfStr(s1, s2))>>)
-    [] fn = "fmt.Sprintf[b]"        -> Ok(<<S(SprintfBool(s1, s2))>>)
+    [] fn = "fmt.Sprintf[i]"        -> Ok(<<S(Sprintf1(s1, "i", s2))>>)
+    [] fn = "fmt.Sprintf[s]"        -> Ok(<<S(Sprintf1(s1, "s", s2))>>)
+    [] fn = "fmt.Sprintf[b]"        -> Ok(<<S(Sprintf1(s1, "b", s2))>>)
     [] fn = "json.Marshal[i]"       -> Ok(<<S(DecText(a[1])), E(FALSE)>>)
     [] fn = "json.Marshal[s]"       -> Ok(<<S(JsonStr(s1)), E(FALSE)>>)
     [] fn = "json.Marshal[b]"       -> Ok(<<S(IF s1 THEN TrueTxt ELSE FalseTxt), E(FALSE)>>)
@@ -373,6 +375,7 @@ WF(fn, a) ==
     [] fn \in {"sort.SearchInts"} -> Ordered(a[1].v, "int")
     [] fn \in {"sort.SearchStrings"} -> Ordered(a[1].v, "str")
     [] fn \in {"math.Max", "math.Min", "math.Sum", "math.Max[i64]", "math.Min[i64]", "math.Sum[i64]"} -> a[1].v # <<>>
+    [] fn = "strconv.Rtoi(Itor)" -> a[1].v >= 1 /\ a[1].v <= 3999          \* the round trip is documented for 1..3999
     [] fn = "fmt.Sprintf[i]" -> FmtWF(a[1].v, "i", a[2].v)
     [] fn = "fmt.Sprintf[s]" -> FmtWF(a[1].v, "s", 0)
     [] fn = "fmt.Sprintf[b]" -> FmtWF(a[1].v, "b", 0)
@@ -508,7 +511,7 @@ ArgClasses(a) == IF a = <<>> THEN "" ELSE ArgClass(a[1]) \o (IF Len(a) > 1 THEN 
 Diff(got, want) ==
   IF got.st # want.st THEN want.st \o ">" \o got.st
   ELSE IF Len(got.vals) # Len(want.vals) THEN "arity"
-  ELSE LET bad == {i \in 1..Len(want.vals) : ~ValEq(got.vals[i], want.vals[i])} IN
+  ELSE LET bad == {i \in 1..Len(want.vals) : (ErrExpected(want) => want.vals[i].t = "e") /\ ~ValEq(got.vals[i], want.vals[i])} IN
     IF bad = {} THEN "rel"
     ELSE LET i == SetMin(bad) IN
       "r" \o ToString(i) \o (IF got.vals[i].t # want.vals[i].t THEN ":type:" \o got.vals[i].t ELSE ":val")
